@@ -386,7 +386,8 @@ def _job_vectors(seed, tier):
             "bound": "published vectors: BIP143 x7, BIP341 wallet vectors x7 (sigMsg and sigHash), Core sighash.json #1"}
 
 
-BOUNDED = [("rt-contracts", fuzz_job(ALL)), ("history-enumerated", job_history_enumerated), ("history-random", job_history_random),
+_GEN = [n for n in ALL if REG.contracts[n].gen is not None]
+BOUNDED = [("rt-contracts-%d" % _k, fuzz_job(_GEN[_k::4])) for _k in range(4)] + [ ("history-enumerated", job_history_enumerated), ("history-random", job_history_random),
            ("mixed-algorithms", job_mixed_algorithms), ("grid", job_grid), ("vectors", job_vectors)]
 TRUSTED_BASE = ["pyvc symbolic executor (A-ENGINE)", "z3", "spec functions verif/specs/sighash.py + txwire.py + wire.py (A-SPEC; validated against "
                 "the BIP143 and BIP341 published vectors and Core's sighash.json #1 in the `vectors` job)",
